@@ -146,6 +146,11 @@ class Gen:
         if r.random() < 0.02 and op["gsi"]:
             # an index name of two characters: refused by the request validation of the SDK v1 client only
             op["gsi"][0]["name"] = "gx"; t["indexes"][0]["name"] = "gx"
+        if r.random() < 0.25:
+            # the same key schemas with the RANGE element listed first (the order of the elements carries no meaning)
+            if schema["range"] and r.random() < 0.7: op["range_first"] = True
+            for ix in op["gsi"] + op["lsi"]:
+                if "range" in ix and r.random() < 0.6: ix["range_first"] = True
         if not op["gsi"]: del op["gsi"]
         if not op["lsi"]: del op["lsi"]
         if r.random() < 0.03:
@@ -736,8 +741,21 @@ class ExprGen(Gen):
             ("SET l2 = list_append(:l, :l), seen = #c", {":l": {"L": [S("x")]}})])
         return dict(op="lang_update", expr=e, item=it, names=names, values=vals)
 
+    def arith_probe(self):
+        """a subtraction whose right operand is an attribute of the item, or a value used again later in the expression:
+        the operands keep their values"""
+        r = self.r
+        it = {"amount": N(r.choice(["100", "20", "0.5", "7"])), "rebate": N(r.choice(["30", "3", "0.25", "7"])), "b": N(r.choice(["20", "1"])), "keep": S("k")}
+        e, vals = r.choice([
+            ("SET amount = amount - rebate", {}), ("SET net = amount - rebate", {}), ("SET amount = amount - rebate, b = b - rebate", {}),
+            ("SET amount = amount - :d, b = b - :d", {":d": N(r.choice(["3", "0.5"]))}), ("SET amount = :d - rebate, b = rebate", {":d": N("50")}),
+            ("SET amount = amount + rebate, b = b - rebate", {}), ("SET net = amount - rebate - rebate", {})])
+        return dict(op="lang_update", expr=e, item=it, names={}, values=vals)
+
     def update_case(self):
         r = self.r
+        if r.random() < 0.03:
+            return self.arith_probe()
         if r.random() < 0.04:
             return self.dotted_probe()
         if r.random() < 0.12:
